@@ -6,7 +6,7 @@ use std::collections::BTreeMap;
 
 use crate::case::*;
 use crate::ctx::{Actor, Res, TraceEv};
-use crate::engine::{Failure, Outcome};
+use crate::outcome::{Failure, Outcome};
 use crate::hist::Hist;
 
 pub mod agenda;
